@@ -241,9 +241,16 @@ func (pl *pool) spawn() *proc {
 			p.err = "worker " + tag + " not ready after 150 s"
 			p.kill()
 			return p
+		case <-pl.stop:
+			p.err = "stopped"
+			p.kill()
+			return p
 		}
 	}
 }
+
+// stopAt: the run's internal deadline; a worker still busy then is killed (its journalled results so far are kept)
+var stopAt time.Time
 
 func runWorker(pl *pool, file string, offset int64, count int, deadline, noProgress time.Duration) *workerRun {
 	wr := &workerRun{CulpritID: -1}
@@ -268,9 +275,20 @@ func runWorker(pl *pool, file string, offset int64, count int, deadline, noProgr
 	timer := time.NewTimer(noProgress)
 	defer timer.Stop()
 	killed := false
+	var stopC <-chan time.Time
+	if !stopAt.IsZero() && count < 0 {
+		st := time.NewTimer(time.Until(stopAt))
+		defer st.Stop()
+		stopC = st.C
+	}
 loop:
 	for {
 		select {
+		case <-stopC:
+			killed = true
+			cmd.Process.Kill()
+			wr.Kind = "deadline"
+			break loop
 		case l, ok := <-lines:
 			if !ok {
 				break loop
@@ -474,6 +492,7 @@ func main() {
 	seedFail := map[string]string{} // family -> what happened to its valid seed during a worker's warm-up
 	soloSem := make(chan struct{}, nw)
 	pl := newPool(self, scratch, vlimitKB, nw, nw/2+1)
+	stopAt = r.Deadline
 
 	solo := func(in *Input, tag string) *workerRun {
 		soloSem <- struct{}{}
@@ -508,6 +527,9 @@ func main() {
 				}
 				mu.Unlock()
 				pos += len(wr.Results)
+				if wr.Kind == "deadline" {
+					return
+				}
 				if wr.Kind == "seedfail" {
 					// counts only if three fresh workers in a row fail while warming up
 					if seedFails++; seedFails < 3 {
@@ -548,6 +570,9 @@ func main() {
 					unconfirmed[classKey]++
 				}
 				mu.Unlock()
+				if !skip && r.Expired() {
+					return // internal deadline: the suspect stays unexamined (the run is reported as capped)
+				}
 				if !skip {
 					// re-run alone 3 times in fresh workers with the full deadline: counts only if it fails every time
 					fails := 0
